@@ -107,6 +107,76 @@ def resolver_tables_rule(chk: Check, ctx: Any, rule: str) -> None:
         chk.unknown(rule, "resolver:end-offset-per-routine", f, "construction of the end-offset table not recognised")
 
 
+def eof_guard_rule(chk: Check, ctx: Any, rule: str) -> None:
+    """The upward routine search of process_op_for_jump gives up exactly when the index leaves the end-offset table."""
+    f = ctx.repo.func("explorerscript.ssb_converting.ssb_special_ops:process_op_for_jump")
+    fn = f.node
+    tab = astq.params_of(fn)[3] if len(astq.params_of(fn)) > 3 else "routine_end_offsets"
+    guards = [n for n in walk_no_nested(fn) if isinstance(n, ast.If) and isinstance(n.test, ast.Compare) and any(isinstance(x, ast.Raise) for x in ast.walk(n))
+              and "routine_id" in norm(n.test.left) and any(isinstance(w, ast.While) and any(x is n for x in ast.walk(w)) for w in walk_no_nested(fn))]
+    if len(guards) != 1:
+        chk.unknown(rule, "resolver:eof-guard", f, f"{len(guards)} end-of-table guards found in the upward routine search")
+        return
+    g = guards[0]
+    bound = astq.inline_locals(fn, g.test.comparators[0])
+    t = norm(bound)
+    op = type(g.test.ops[0]).__name__
+    exact = {(f"len({tab})", "GtE"), (f"len({tab})", "Eq"), (f"len({tab}) - 1", "Gt")}
+    early = {(f"len({tab}) - 1", "GtE"), (f"len({tab}) - 1", "Eq"), (f"len({tab}) - 2", "Gt")}
+    if (t, op) in exact:
+        chk.hold(rule, "resolver:eof-guard", f, "gives up only past the last routine", node=g)
+    elif (t, op) in early:
+        chk.violation(rule, "resolver:eof-guard", f,
+                      f"`{norm(g.test)}` (bound = {t}) reports 'past EOF' as soon as the search reaches the LAST routine: a jump from an earlier routine into the last "
+                      "routine raises ValueError in the resolver, which runs before convert()'s try block, so no text and no fallback is produced", node=g)
+    else:
+        chk.unknown(rule, "resolver:eof-guard", f, f"end-of-table guard `{norm(g.test)}` (bound {t}) not recognised", node=g)
+
+
+def handler_names_rule(chk: Check, ctx: Any, rule: str, conv: Func, main: ast.Try, h: ast.ExceptHandler) -> None:
+    """Every local name the fallback handler reads is bound on every path into the handler (else the handler itself raises and nothing is returned)."""
+    fn = conv.node
+    params = set(astq.params_of(fn, skip_self=False))
+    assigned_in_fn: dict[str, list[ast.AST]] = {}
+    for n in walk_no_nested(fn):
+        if isinstance(n, ast.Name) and isinstance(n.ctx, ast.Store):
+            assigned_in_fn.setdefault(n.id, []).append(n)
+    try_nodes = {id(x) for st in main.body for x in ast.walk(st)}
+    handler_nodes = [x for st in h.body for x in ast.walk(st)]
+    stored_in_handler: dict[str, int] = {}
+    for x in handler_nodes:
+        if isinstance(x, ast.Name) and isinstance(x.ctx, ast.Store):
+            stored_in_handler[x.id] = min(stored_in_handler.get(x.id, 10**9), x.lineno)
+    if h.name:
+        stored_in_handler[h.name] = 0
+    bad: list[tuple[str, ast.Name]] = []
+    n_read = 0
+    for x in handler_nodes:
+        if not (isinstance(x, ast.Name) and isinstance(x.ctx, ast.Load)) or x.id not in assigned_in_fn or x.id in params:
+            continue
+        n_read += 1
+        if stored_in_handler.get(x.id, 10**9) < x.lineno:
+            continue
+        stores = assigned_in_fn[x.id]
+        before_try = [s for s in stores if id(s) not in try_nodes and s.lineno < main.lineno and not _conditional(fn, s, main)]
+        if not before_try:
+            bad.append((x.id, x))
+    chk.decide(rule, "convert:fallback-handler-names", not bad, conv,
+               (f"the fallback handler reads `{bad[0][0]}`, which is only bound inside the try block (or conditionally): when the failure happens before that "
+                "binding, the handler raises UnboundLocalError itself and convert() returns neither text nor fallback") if bad else "",
+               f"{n_read} local reads in the handler are bound before the try block", node=bad[0][1] if bad else None)
+
+
+def _conditional(fn: ast.AST, store: ast.AST, upto: ast.AST) -> bool:
+    """Is the store nested in an if/loop/try of the function body (not a plain top-level statement before `upto`)?"""
+    for st in getattr(fn, "body", []):
+        if any(x is store for x in ast.walk(st)):
+            if isinstance(st, (ast.If, ast.For, ast.While, ast.Try, ast.With)):
+                return not isinstance(st, ast.With)
+            return False
+    return True
+
+
 def run(chk: Check, ctx: Any) -> None:
     repo = ctx.repo
     cg = ctx.callgraph
@@ -122,6 +192,7 @@ def run(chk: Check, ctx: Any) -> None:
     chk.rule("C06-R3", "the fallback prefix starts with a line that parse_exps_meta_attributes reads as is-ssb-script = true/1; all further lines are // comments; "
                        "the whole prefix (marker included) is passed to SsbScriptSsbDecompiler.convert(prefix=...) and counted into its line number")
     chk.rule("C06-R5", "the label resolver, which runs before the try block, is total on well-formed input: one routine end offset per routine")
+    chk.rule("C06-R6", "the reader of the fallback text (SsbScript listener) builds every collected container afresh: parameters of different ops never share one; one label table for the whole file")
     chk.rule("C06-R4", "the routine ops given to the fallback decompiler are a deepcopy taken before the resolver/grapher use self._routine_ops")
 
     conv = repo.func(f"{DEC}:ExplorerScriptSsbDecompiler.convert")
@@ -137,6 +208,11 @@ def run(chk: Check, ctx: Any) -> None:
         chk.violation("C06-R1", "convert:fallback-handler", conv, "no except clause of convert() builds the SsbScript fallback")
         return
     h = fb[0]
+    handler_names_rule(chk, ctx, "C06-R1", conv, main, h)
+    eof_guard_rule(chk, ctx, "C06-R5")
+    from .c07 import collector_fresh_rule, labels_global_rule
+    collector_fresh_rule(chk, ctx, "C06-R6")
+    labels_global_rule(chk, ctx, "C06-R6")
     ra = RaiseAnalysis(cg)
     # every function reachable from the try body
     roots: list[Func] = []
